@@ -195,12 +195,16 @@ def obligations(prop, tier):
     q = tier == "quick"
     out = []
     if prop == "C05":
+        out.append(dict(name="order_once_sameset_listnode", module="harness.iters", body="c05_body", cfg={"N": 4 if q else 5, "cls": "list"}, depth=3, bounds="N<=%d, node class that is also a list subclass" % (4 if q else 5),
+                        picked="n, parent vector, start, consume", symbolic="-"))
         out.append(dict(name="order_once_sameset_eq", module="harness.iters", body="c05_body", cfg={"N": 4 if q else 5, "cls": "eq"}, depth=3, bounds="N<=%d, node class whose instances all compare equal and are falsy" % (4 if q else 5),
                         picked="n, parent vector, start, consume", symbolic="-"))
         out.append(dict(name="order_once_sameset", module="harness.iters", body="c05_body", cfg={"N": 5 if q else 7}, depth=3 if q else 5,
                         bounds="N<=%d" % (5 if q else 7), picked="n, parent vector, start, consume", symbolic="-"))
     elif prop == "C06":
         for it in ("pre", "post", "level", "group", "zigzag"):
+            out.append(dict(name="restrict_valsem_" + it, module="harness.iters", body="c06_body", cfg={"iter": it, "N": 3 if q else 4, "cls": "eq"}, depth=4,
+                            bounds="N<=%d, node class with value/container semantics (all-equal, falsy)" % (3 if q else 4), picked="n, parent vector, start", symbolic="maxlevel (unbounded int), stop/filter answers"))
             if q:
                 out.append(dict(name="restrict5root_" + it, module="harness.iters", body="c06_body", cfg={"iter": it, "N": 5, "exactN": True, "starts": False, "concrete_maxlevel": True, "no_filter": True}, depth=4,
                                 bounds="N=5, start at the root, maxlevel in {None,-1..6}, no filter_", picked="parent vector, maxlevel", symbolic="stop answers"))
@@ -210,6 +214,8 @@ def obligations(prop, tier):
         for cls in (("mixin", "light") if q else ("mixin", "light", "node", "anynode", "symlink")):
             for asrt in (0, 1):
                 out.append(_mut("step_%s_a%d" % (cls, asrt), "c01_body", {"cls": cls, "N": 3, "L": 3, "faults": "all", "F": 1}, asrt, bounds="N<=3 F<=1|persistent"))
+        out.append(_mut("step_symlink_attrveto_a1", "c01_body", {"cls": "symlink", "N": 3, "L": 2, "faults": "all", "F": 1, "veto": "attr"}, 1, depth=5,
+                        bounds="N<=3, SymlinkNode subclass, vetoes derived from AttributeError, assertions on"))
         out.append(_mut("step_mixed_flavours", "c01_body", {"cls": "mixed", "N": 3 if q else 4, "L": 2, "faults": "all", "F": 1}, 0, depth=5,
                         bounds="N<=%d, forest mixing NodeMixin- and LightNodeMixin-based nodes, <=1 fault|persistent" % (3 if q else 4)))
         for cls in ("mixin_eq", "light_eq"):
@@ -249,6 +255,7 @@ def obligations(prop, tier):
                 out.append(_mut("atomic4_%s" % cls, "c03_body", {"cls": cls, "N": 4, "exactN": True, "L": 3, "faults": "pre", "F": 1}, depth=6, bounds="N=4 F<=1|persistent"))
                 out.append(_mut("atomic3f2_%s" % cls, "c03_body", {"cls": cls, "N": 3, "L": 3, "faults": "pre", "F": 2}, depth=5, bounds="N<=3 F<=2"))
                 out.append(_mut("atomic3tree_%s" % cls, "c03_body", {"cls": cls, "N": 3, "L": 3, "faults": "pre", "F": 1, "veto": "tree"}, bounds="N<=3 TreeError-veto"))
+                out.append(_mut("atomic3attr_%s" % cls, "c03_body", {"cls": cls, "N": 3, "L": 3, "faults": "pre", "F": 1, "veto": "attr"}, bounds="N<=3 AttributeError-veto"))
     elif prop == "C16":
         for cls in ("mixin_eq", "light_eq"):
             out.append(_mut("hooks_%s" % cls, "c16_body", {"cls": cls, "N": 3, "L": 2, "faults": "none"}, depth=4, bounds="N<=3, no faults, all-equal/falsy node class"))
@@ -261,9 +268,13 @@ def obligations(prop, tier):
         N = 3 if q else 4
         out.append(_mut("lockstep", "c18_body", {"N": N, "L": 3, "faults": "all", "F": 1}, depth=5 if q else 7, bounds="N<=%d F<=1|persistent" % N))
         out.append(_mut("lockstep_nofault_iterables", "c18_body", {"N": 3, "L": 3, "faults": "none"}, depth=5, bounds="N<=3, no faults, list and one-shot iterator arguments"))
+        out.append(_mut("lockstep_valuesem4", "c18_body", {"N": 4, "exactN": True, "L": 1, "faults": "none", "mixcls": "mixin_eq", "lightcls": "light_eq"}, depth=6,
+                        bounds="N=4, sequences <= 1, no faults, value/container-semantic classes"))
         out.append(_mut("lockstep_valuesem", "c18_body", {"N": N, "L": 2, "faults": "none", "mixcls": "mixin_eq", "lightcls": "light_eq"}, depth=5,
                         bounds="N<=%d, no faults, node classes whose instances all compare equal, are empty and falsy" % N))
     elif prop == "C04":
+        out.append(dict(name="nav_light_eq", module="harness.navigate", body="c04_body", cfg={"cls": "light_eq", "N": 4 if q else 5, "move": False}, depth=4, bounds="N<=%d, LightNodeMixin class with value/container semantics" % (4 if q else 5),
+                        picked="n, parent vector (forest)", symbolic="-"))
         out.append(dict(name="nav_mixin_eq", module="harness.navigate", body="c04_body", cfg={"cls": "mixin_eq", "N": 4 if q else 5, "move": False}, depth=4, bounds="N<=%d, all-equal node class" % (4 if q else 5),
                         picked="n, parent vector (forest)", symbolic="-"))
         for cls in ("mixin", "light"):
@@ -327,6 +338,7 @@ def obligations(prop, tier):
             out.append(dict(name="get_semantics", module="harness.resolve", body="get_body", cfg={"N": 3, "L": 3, "rotations": 6}, depth=4, bounds="N<=3 L<=3 6 rotations", picked="n, parent vector, name rotation, components", symbolic="-"))
             out.append(dict(name="get_semantics_dot", module="harness.resolve", body="get_body", cfg={"N": 3, "L": 2, "rotations": 6, "sep": "."}, depth=4, bounds="N<=3 L<=2, separator '.'", picked="same", symbolic="-"))
             out.append(dict(name="get_semantics_valsem", module="harness.resolve", body="get_body", cfg={"N": 3, "L": 2, "rotations": 3, "valsem": True}, depth=4, bounds="N<=3 L<=2 3 rotations, all-equal/falsy node class", picked="same", symbolic="-"))
+            out.append(dict(name="get_semantics_missing_attr", module="harness.resolve", body="get_body", cfg={"N": 3, "L": 2, "rotations": 3, "missing_attr": True}, depth=4, bounds="N<=3 L<=2 3 rotations, one node lacks the path attribute", picked="same", symbolic="-"))
             out.append(dict(name="roundtrip", module="harness.resolve", body="roundtrip_body", cfg={"N": 4}, depth=4, bounds="N<=4, 4 separators, 2 path attributes, 22 rotations", picked="separator, pathattr, n, parent vector, name rotation", symbolic="-"))
         else:
             out.append(dict(name="get_semantics_valsem", module="harness.resolve", body="get_body", cfg={"N": 3, "L": 3, "rotations": 6, "valsem": True}, depth=4, bounds="N<=3 L<=3 6 rotations, all-equal/falsy node class", picked="same", symbolic="-"))
